@@ -404,7 +404,30 @@ func init() {
 				return f
 			}}
 		}
-		return []hOp{sm("ScalarMult(P,k1)", P, k1), sm("ScalarMult(Q,k1)", Q, k1), sm("ScalarMult(P,n+9)", P, k2), sm("ScalarMult(G,k1)", ref.G(), k1),
+		one := ref.Mul(ref.G(), big.NewInt(1))
+		inf := wei.Pt{X: new(big.Int), Y: new(big.Int)}
+		_ = inf
+		extra := []hOp{sm("ScalarMult(P,1)", P, []byte{1}), sm("ScalarMult(Q,0x000001)", Q, []byte{0, 0, 1}), sm("ScalarMult(P,n+1)", P, new(big.Int).Add(ref.N, big.NewInt(1)).Bytes()),
+			{"ScalarBaseMult(1)", pt(one), func(a *arena) string {
+				x, y := cv.ScalarBaseMult(a.buf(0, []byte{1}))
+				f := fp(x.Text(16), y.Text(16))
+				scribbleInts(x, y)
+				return f
+			}},
+			{"Add(P,(0,0))", pt(P), func(a *arena) string {
+				x, y := cv.Add(a.num(0, P.X), a.num(1, P.Y), a.num(2, new(big.Int)), a.num(3, new(big.Int)))
+				f := fp(x.Text(16), y.Text(16))
+				scribbleInts(x, y)
+				return f
+			}},
+			{"Add((0,0),Q)", pt(Q), func(a *arena) string {
+				x, y := cv.Add(a.num(2, new(big.Int)), a.num(3, new(big.Int)), a.num(0, Q.X), a.num(1, Q.Y))
+				f := fp(x.Text(16), y.Text(16))
+				scribbleInts(x, y)
+				return f
+			}},
+		}
+		return append([]hOp{sm("ScalarMult(P,k1)", P, k1), sm("ScalarMult(Q,k1)", Q, k1), sm("ScalarMult(P,n+9)", P, k2), sm("ScalarMult(G,k1)", ref.G(), k1),
 			add("Add(P,Q)", P, Q), add("Add(Q,Q)", Q, Q), add("Add(P,-P)", P, ref.Neg(P)),
 			{"ScalarBaseMult(k1)", pt(ref.Mul(ref.G(), new(big.Int).SetBytes(k1))), func(a *arena) string {
 				x, y := cv.ScalarBaseMult(a.buf(0, k1))
@@ -421,7 +444,7 @@ func init() {
 			{"IsOnCurve(P), IsOnCurve(P.x,Q.y)", fp(true, false), func(a *arena) string {
 				return fp(cv.IsOnCurve(a.num(0, P.X), a.num(1, P.Y)), cv.IsOnCurve(a.num(0, P.X), a.num(1, Q.Y)))
 			}},
-		}
+		}, extra...)
 	}
 
 	// ---------------- vrf (C18) ----------------
